@@ -308,7 +308,7 @@ func genCase(t *rapid.T) (Case, map[string]bool) {
 				}
 			}
 			if o.K == ops.SetCSel {
-				cSel = o.Sel
+				cSel = o.Sel & 63
 				lastIncr = false
 			}
 			if o.K == ops.SetCReg {
